@@ -284,6 +284,27 @@ theorem execute_calls_from_steps (P : Step → Prop) (hP : ∀ s, P s → ∀ t 
     (fun er her resp qr next hpo e he => hP er.step her e.step (parseOne_next er resp qr next hpo e he))
     steps initial st hsteps h
 
+/-- the steps of a plan: its root steps and, recursively, their child steps -/
+inductive InPlan (steps : List Step) : Step → Prop
+  | root {s : Step} : s ∈ steps → InPlan steps s
+  | child {s t : Step} : InPlan steps s → t ∈ s.thn → InPlan steps t
+
+/-- **Every request of every call the pipeline makes is the formatted form of a step of the plan**
+    (header, selection set, operation name and query key of that step; variables as `getVariables`
+    computes them at some insertion point), **sent to that step's service** — for every operation,
+    every plan, every downstream. -/
+theorem gateway_requests_are_plan_steps (op : Op) (so : Scrub → Scrub) (steps : List Step) (sf : Scrub)
+    (hplan : plan c op = .ok (steps, sf)) (res : GwResult)
+    (h : gateway c cfg op rv down so = .ok res) :
+    ∀ cl ∈ res.calls, ∀ rq ∈ cl.batch, ∃ s ip vars, InPlan steps s ∧ s.url = cl.url ∧
+      getVariables (withDeclaredDefaults Gen.Vars.declaredDefaultsApplied op rv) c ⟨s, ip⟩ = .ok vars ∧
+      rq = requestOf c s vars := by
+  intro cl hcl rq hrq
+  obtain ⟨er, vars, hin, hurl, hv, hrq'⟩ := gatewayCore_calls_from_reqs c cfg _ down (fun er => InPlan steps er.step)
+    (fun er her resp qr next hpo e he => InPlan.child her (parseOne_next er resp qr next hpo e he))
+    op so steps sf hplan (fun s hs => InPlan.root hs) res h cl hcl rq hrq
+  exact ⟨er.step, er.ip, vars, hin, hurl, hv, hrq'⟩
+
 end
 
 end PebblesVerif.Exec
